@@ -259,7 +259,10 @@ def main():
             rep.violation(clause, cls, wit)
     # scripts
     sjobs = []
-    pool = rng.sample(allc, min(len(allc), 60 if thorough else 8))
+    def nclasses(c):
+        return sum(1 for t in c["toks"] if t == "class") - sum(1 for a, b in zip(c["toks"], c["toks"][1:]) if a == "enum" and b == "class")
+    rich = [c for c in allc if nclasses(c) >= 2]
+    pool = rng.sample(rich, min(len(rich), 40 if thorough else 5)) + rng.sample(allc, min(len(allc), 20 if thorough else 3))
     for c in pool:
         text = layout.render(c["toks"])
         inf = info[c["id"]]
@@ -274,10 +277,19 @@ def main():
                         walk(d["items"], path + (d["name"],))
             walk(first["inst"])
         for which in ("pybind", "matlab"):
-            for ignore_mode in ("absent", "empty", "one"):
+            for ignore_mode in ("absent", "empty", "one", "many"):
                 if ignore_mode == "one" and not cpps:
                     continue
-                ig = [] if ignore_mode != "one" else [rng.choice(cpps)[0 if which == "pybind" else 1]]
+                if ignore_mode == "many" and len(cpps) < 2:
+                    continue
+                col = 0 if which == "pybind" else 1
+                if ignore_mode == "one":
+                    ig = [rng.choice(cpps)[col]]
+                elif ignore_mode == "many":
+                    ig = [x[col] for x in rng.sample(cpps, min(len(cpps), 3))]
+                    rng.shuffle(ig)
+                else:
+                    ig = []
                 sjobs.append((c["origin"], text, inf["apitop"], inf["topoption"], ignore_mode, ig, rng.random() < 0.5,
                               which, which == "pybind" and rng.random() < 0.3))
     sres = common.pmap(script_job, sjobs, chunksize=1)
